@@ -1,0 +1,9 @@
+//go:build verif
+
+package debugger
+
+// VerifExport runs the export dialog's action without the dialog (verification
+// builds only).
+func (d *Debugger) VerifExport(filename string, snapshot bool) {
+	d.hExportData(filename, snapshot)
+}
